@@ -102,6 +102,8 @@ class XC:
         self.spins = None if spins is None else [list(sl) for sl in spins]
         self.L = lattice_from_metric(self.g) if L is None else np.array(L, dtype=float)
         self.name, self.cls = name, cls
+        self.known_rots = None   # rotations (integer matrices, this lattice basis) that are symmetries by construction
+        self.order = None        # textbook order of the space group modulo lattice translations, when known
 
     def den(self):
         D = 1
@@ -148,7 +150,11 @@ class XC:
                 basis.append(lst)
                 if self.spins is not None: spins.append(sl)
         Uf = np.array([[float(x) for x in r] for r in U])
-        return XC(g2, basis, spins, L=self.L @ Uf, name=self.name + '*U', cls=self.cls)
+        out = XC(g2, basis, spins, L=self.L @ Uf, name=self.name + '*U', cls=self.cls)
+        if self.known_rots is not None and det == 1:
+            out.known_rots = [conj_int(R, U, Ui) for R in self.known_rots]
+        out.order = self.order
+        return out
 
     # ---- text protocol
     def lean_fields(self):
@@ -157,6 +163,15 @@ class XC:
         sp = self.spins if self.spins is not None else [[0] * len(a) for a in self.basis]
         s = ':'.join(','.join(str(int(x)) for x in sl) for sl in sp)
         return m, b, s
+
+
+def conj_int(R, U, Ui=None):
+    """U^-1 R U as an integer matrix (None if not integer)"""
+    U = [[Fr(x) for x in r] for r in U]
+    if Ui is None: Ui = minv(U)
+    M = mmul(Ui, mmul([[Fr(x) for x in r] for r in R], U))
+    if any(x.denominator != 1 for r in M for x in r): return None
+    return tuple(tuple(int(x) for x in r) for r in M)
 
 
 def supercell_translations(U):
@@ -280,6 +295,7 @@ def decorate(rng, g, maxatoms=10, spins_prob=0.35):
     for _ in range(50):
         nsp = rng.choice((1, 1, 2, 2, 3))
         basis = []
+        common = set(H)
         tau = rand_site(rng, d, True) if rng.random() < 0.3 else tuple(Fr(0) for _ in range(d))
         for s in range(nsp):
             for _try in range(20):
@@ -289,12 +305,14 @@ def decorate(rng, g, maxatoms=10, spins_prob=0.35):
                 orb = orbit(K, x, tau)
                 if len(orb) <= max(1, maxatoms // nsp): break
             else:
-                orb = [x]
+                orb, K = [x], [tuple(tuple(int(i == j) for j in range(d)) for i in range(d))]
+            common &= set(K)
             basis.append(orb)
         if sum(len(a) for a in basis) <= maxatoms and far_enough(basis, d):
             break
     else:
         basis = [[tuple(Fr(0) for _ in range(d))]]
+        common = set(H)
     spins = None
     if rng.random() < spins_prob:
         mode = rng.choice(('afm', 'random', 'fm', 'partial'))
@@ -304,7 +322,7 @@ def decorate(rng, g, maxatoms=10, spins_prob=0.35):
             elif mode == 'random': spins.append([rng.choice((1, -1)) for _ in a])
             elif mode == 'partial': spins.append([rng.choice((1, -1, 0)) for _ in a])
             else: spins.append([1 if i % 2 == 0 else -1 for i in range(len(a))])
-    return basis, spins
+    return basis, spins, (sorted(common) if spins is None else None)
 
 
 # ----------------------------------------------------------------------------- Bravais classes
@@ -412,8 +430,9 @@ def random_xc(rng, nprng, cls=None, d=None, maxatoms=10, redescribe=0.5, rotate=
         cls = rng.choice(CLASSES3 if d == 3 else CLASSES2)
     g = bravais(rng, cls)
     d = len(g)
-    basis, spins = decorate(rng, g, maxatoms=maxatoms, spins_prob=spins_prob)
+    basis, spins, known = decorate(rng, g, maxatoms=maxatoms, spins_prob=spins_prob)
     x = XC(g, basis, spins, name='rand-' + cls, cls=cls)
+    x.known_rots = known
     if rng.random() < rotate:
         x.L = rand_rotation(nprng, d) @ x.L
     if rng.random() < redescribe:
@@ -453,7 +472,7 @@ def zoo():
     z.append(XC([[F(1), F(0), F(3, 10)], [F(0), F(4, 3), F(0)], [F(3, 10), F(0), F(2)]], [[o3, (q, h, F(1, 3))]],
                 name='mono-lowsym', cls='monoP'))
     z.append(XC([[F(1), F(1, 5), F(3, 10)], [F(1, 5), F(4, 3), F(-1, 4)], [F(3, 10), F(-1, 4), F(2)]],
-                [[o3, (F(1, 7), F(2, 7), F(3, 11))]], name='triclinic-P1', cls='triclinic'))
+                [[o3], [(F(1, 7), F(2, 7), F(3, 11))]], name='triclinic-P1', cls='triclinic'))
     z.append(XC([[F(1), F(1, 5), F(3, 10)], [F(1, 5), F(4, 3), F(-1, 4)], [F(3, 10), F(-1, 4), F(2)]],
                 [[(F(1, 7), F(2, 7), F(3, 11)), (F(6, 7), F(5, 7), F(8, 11))]], name='triclinic-P-1', cls='triclinic'))
     # the F6 regime: rhombohedral close to cos = -1/2
@@ -477,16 +496,36 @@ def zoo():
     z.append(XC(gh2, [[(F(1, 3), F(2, 3))], [(F(2, 3), F(1, 3))]], name='hBN', cls='hex2'))
     z.append(XC(gh2, [[o2], [(F(1, 3), F(2, 3)), (F(2, 3), F(1, 3))]], name='tri+honey', cls='hex2'))
     z.append(XC(diag(1, F(9, 4)), [[o2, (h, F(1, 5))]], name='rect-lowsym', cls='rect'))
-    z.append(XC([[F(1), F(3, 10)], [F(3, 10), F(2)]], [[o2, (F(1, 7), F(3, 11))]], name='oblique-p1', cls='oblique'))
+    z.append(XC([[F(1), F(3, 10)], [F(3, 10), F(2)]], [[o2], [(F(1, 7), F(3, 11))]], name='oblique-p1', cls='oblique'))
     z.append(XC(gh2, [[(F(1, 3), F(2, 3)), (F(2, 3), F(1, 3))]], spins=[[1, -1]], name='honeycomb-AFM', cls='hex2'))
     z.append(XC(I2, [[o2, (h, h)]], spins=[[1, -1]], name='square-AFM', cls='square'))
+    orders = {'SC': 48, 'FCC': 48, 'BCC': 48, 'B2': 48, 'diamond': 48, 'rocksalt': 48, 'L12': 48, 'NbO': 48,
+              'HCP-ideal': 24, 'HCP-2.5': 24, 'HCP-1.6': 24, 'omega': 24, 'rumpled-omega': 12, 'FCC+O+T': 48,
+              'triclinic-P1': 1, 'triclinic-P-1': 2, 'rhomb-obtuse-49': 12, 'rhomb-acute-95': 12,
+              'SC-AFM-z': 32, 'B2-spin': 48, 'BCC-AFM': 96, 'diamond-AFM': 48,
+              'square': 8, 'square-2sp': 8, 'triangular': 12, 'honeycomb': 12, 'hBN': 6, 'tri+honey': 12,
+              'oblique-p1': 1, 'honeycomb-AFM': 12, 'square-AFM': 16}
+    for x in z: x.order = orders.get(x.name)
     return z
 
 
 # ----------------------------------------------------------------------------- adapters to the real code
+_STUBBED = [False]
+
+
+def crystal_module():
+    """onsager.crystal with Crystal.genBZG stubbed: the Brillouin-zone construction (property C22) takes 75% of the
+    constructor's time and its result is never read by the symmetry code exercised here."""
+    from onsager import crystal
+    if not _STUBBED[0]:
+        crystal.Crystal.genBZG = lambda self: np.zeros((0, self.dim))
+        _STUBBED[0] = True
+    return crystal
+
+
 def build(xc, NOSYM=False, noreduce=False, noise=None, nprng=None, threshold=None):
     """construct onsager.crystal.Crystal from an exact description"""
-    from onsager import crystal
+    crystal = crystal_module()
     L = np.array(xc.L, dtype=float)
     basis = [[np.array([float(x) for x in u]) for u in atoms] for atoms in xc.basis]
     if noise:
@@ -608,6 +647,30 @@ def oracle_ops(crys, tol=1e-7):
                             phases.add(int(round(float(np.real(s1 / s0)))))
         if len(phases) > 1:
             bad.append(('spin-phase-inconsistent', 'rot %s maps some spins with +1 and some with -1' % (R.tolist(),)))
+    return bad
+
+
+def oracle_known(xc, crys):
+    """Completeness against what is known independently of the code: the textbook group order of the zoo
+    entries, and the rotations that are symmetries by construction of the random decoration."""
+    bad = []
+    if xc.order is not None and len(crys.G) != xc.order:
+        bad.append(('group-order:%s' % xc.name, '%s: %d operations reported, the space group has %d modulo lattice translations'
+                    % (xc.name, len(crys.G), xc.order)))
+    if xc.known_rots:
+        try:
+            T = np.linalg.solve(xc.L, crys.lattice)
+            Tq = [[snap(T[i, j], 720, 1e-8) for j in range(xc.d)] for i in range(xc.d)]
+        except Exception:
+            return bad
+        if abs(mdet(Tq)) != 1: return bad
+        have = set(tuple(tuple(int(x) for x in r) for r in g.rot) for g in crys.G)
+        for R in xc.known_rots:
+            Ro = conj_int(R, Tq)
+            if Ro is None or Ro not in have:
+                bad.append(('missing-known-symmetry', 'rotation %s (input lattice basis) is a symmetry by construction of the '
+                            'crystal but no reported operation has it' % (list(map(list, R)),)))
+                break
     return bad
 
 
